@@ -121,6 +121,7 @@ func treeDepth(t TNode) int {
 }
 
 func (c19) Gen(r *R, tier string) any {
+	allowHugeOriginLists = false
 	observeUnknownAPI = false
 	if r.P(0.08) {
 		id := 0
